@@ -244,6 +244,7 @@ def obligations(ctx: Ctx):
         Ob(f"{P}.F1", "F", "every raise in the lexer is LexerError, every raise in the parser is ParserError", FUNCS, ob_raise_sites),
         Ob(f"{P}.F2", "F", "tools: every reading / emitting / compiling stage call lies inside a covering try", ["octave_mcp.mcp.validate:ValidateTool.execute", "octave_mcp.mcp.write:WriteTool.execute", "octave_mcp.mcp.eject:EjectTool.execute", "octave_mcp.mcp.compile_grammar:CompileGrammarTool.execute"], ob_guarded_stages),
         Ob(f"{P}.F3", "F", "bracket recursion is cut by _check_deep_nesting at MAX_NESTING_DEPTH", [f"{PARSER}:Parser.parse_list"], ob_recursion_cut),
+        Ob(f"{P}.F4", "F", "parser receipts (copied verbatim into tool envelopes) hold only JSON-safe values", [f"{PARSER}:Parser.*"], ob_receipt_values),
     ]
     try:
         from props import C20_b
@@ -257,3 +258,160 @@ def obligations(ctx: Ctx):
     except ImportError:
         pass
     return obs
+
+
+# ---- F4: parser receipts carry only JSON-safe values ----------------------------------------------------------------------
+
+SAFE_CALLS = ("str", "len", "repr", "int", "bool", "float", "sorted", "list", "min", "max", "sum", "format")
+SAFE_ANN = ("int", "str", "bool", "float", "list[str]", "list[int]", "str | None", "int | None", "dict[str, list[int]]")
+
+
+_STR_FUNCS: set[str] = set()
+
+
+def _load_str_funcs(tree) -> None:
+    _STR_FUNCS.clear()
+    for n in ast.walk(tree):
+        if isinstance(n, ast.FunctionDef) and n.returns is not None and ast.unparse(n.returns) in ("str", "int", "bool"):
+            _STR_FUNCS.add(n.name)
+            _STR_FUNCS.add("self." + n.name)
+
+
+def _safe_expr(e: ast.AST, fn: ast.FunctionDef, guards: set[str], seen: set[str]) -> bool:
+    if isinstance(e, ast.Constant):
+        return isinstance(e.value, (str, int, float, bool)) or e.value is None
+    if isinstance(e, ast.JoinedStr):
+        return True
+    if isinstance(e, ast.Call):
+        f = ast.unparse(e.func)
+        if f in SAFE_CALLS or f.endswith(".join") or f.endswith((".strip", ".lower", ".upper", ".format", ".copy", ".split")):
+            return True
+        if f in _STR_FUNCS:  # module functions annotated `-> str` / `-> int`
+            return True
+        return False
+    if isinstance(e, ast.Attribute):
+        # positions and counters are ints; the value of an IDENTIFIER / key token is the scanned text (A-token-text)
+        return e.attr in ("line", "column", "name", "deep_nesting_threshold", "bracket_depth") or ast.unparse(e).endswith(".type.name") or ast.unparse(e) in ("identifier_token.value", "key_token.value", "self.current().value")
+    if isinstance(e, (ast.List, ast.Tuple)):
+        return all(_safe_expr(x, fn, guards, seen) for x in e.elts)
+    if isinstance(e, ast.BinOp):
+        return _safe_expr(e.left, fn, guards, seen) and _safe_expr(e.right, fn, guards, seen)
+    if isinstance(e, ast.IfExp):
+        return _safe_expr(e.body, fn, guards, seen) and _safe_expr(e.orelse, fn, guards, seen)
+    if isinstance(e, ast.Subscript):
+        return _safe_expr(e.value, fn, guards, seen)
+    if isinstance(e, (ast.ListComp, ast.GeneratorExp)):
+        return _safe_expr(e.elt, fn, guards | {g.target.id for g in e.generators if isinstance(g.target, ast.Name)}, seen)
+    if isinstance(e, ast.Name):
+        if e.id in guards:
+            return True
+        if e.id in seen:
+            return True
+        seen = seen | {e.id}
+        for a in fn.args.args + fn.args.kwonlyargs:
+            if a.arg == e.id:
+                return a.annotation is not None and ast.unparse(a.annotation) in SAFE_ANN
+        rhs = []
+        for n in ast.walk(fn):
+            if isinstance(n, ast.Assign):
+                for t in n.targets:
+                    if isinstance(t, ast.Name) and t.id == e.id:
+                        rhs.append(n.value)
+                    elif isinstance(t, (ast.Tuple, ast.List)) and any(isinstance(x, ast.Name) and x.id == e.id for x in t.elts):
+                        rhs.append(None)
+            elif isinstance(n, ast.AnnAssign) and isinstance(n.target, ast.Name) and n.target.id == e.id:
+                if ast.unparse(n.annotation) in SAFE_ANN:
+                    return True
+                rhs.append(n.value)
+            elif isinstance(n, ast.AugAssign) and isinstance(n.target, ast.Name) and n.target.id == e.id:
+                rhs.append(n.value)
+            elif isinstance(n, (ast.For, ast.comprehension)) and isinstance(n.target, ast.Name) and n.target.id == e.id:
+                rhs.append(n.iter)
+            elif isinstance(n, ast.Call) and isinstance(n.func, ast.Attribute) and n.func.attr in ("append", "extend", "insert") and isinstance(n.func.value, ast.Name) and n.func.value.id == e.id and n.args:
+                rhs.append(n.args[-1])
+        if not rhs:
+            return False
+        return all(r is not None and _safe_expr(r, fn, guards, seen) for r in rhs)
+    return False
+
+
+def _isinstance_str_guards(fn: ast.FunctionDef, node: ast.AST) -> set[str]:
+    """names for which an enclosing `if` test (and-chain) contains isinstance(name, str)"""
+    out: set[str] = set()
+    for n in ast.walk(fn):
+        if isinstance(n, ast.If) and any(node is x for st in n.body for x in ast.walk(st)):
+            tests = n.test.values if isinstance(n.test, ast.BoolOp) and isinstance(n.test.op, ast.And) else [n.test]
+            for t in tests:
+                if isinstance(t, ast.Name) and t.id in ("value_is_quoted_string", "value_is_quoted"):
+                    out.add("value")  # the flag is `<value token>.type == TokenType.STRING`: the value is that token's text
+                if isinstance(t, ast.Call) and ast.unparse(t.func) == "isinstance" and len(t.args) == 2 and isinstance(t.args[0], ast.Name) and ast.unparse(t.args[1]) in ("str", "(str, int)", "int", "str | int"):
+                    out.add(t.args[0].id)
+    return out
+
+
+def replay_receipt_values():
+    """documents that exercise every receipt-bearing construct with non-string values, through validate / lenient write -> json.dumps"""
+    import asyncio
+    import json
+    import os
+    import shutil
+    import tempfile
+
+    from octave_mcp.mcp.validate import ValidateTool
+    from octave_mcp.mcp.write import WriteTool
+
+    docs = [
+        "===D===\nPATTERN::[a,b]\n===END===\n", '===D===\nREGEX::["x"∧REQ→§SELF]\n===END===\n', "===D===\nPATTERN::\n```\nraw\n```\n===END===\n", "===D===\nL::[PATTERN::[a,b],REGEX::5]\n===END===\n",
+        "===D===\nK::a b c\nK::1 2\nK::true x\nK::null y\nV::1.2.3 beta\nF::A->B->C\nT::a vs b vs c\nM::[k::[i::1]]\nX::[1,2\nY::z\n===END===\n", "===D===\nbare line\nK::v\nK::w\n===END===\n", "===D===\nS::REQ∧OPT\nD::" + "[" * 7 + "x" + "]" * 7 + "\n===END===\n",
+    ]
+    bad = []
+    d = tempfile.mkdtemp(prefix="vf-c20-")
+    try:
+        for t in docs:
+            for label, mk in (("octave_validate", lambda: ValidateTool().execute(content=t, schema="META")), ("octave_validate(fix)", lambda: ValidateTool().execute(content=t, schema="META", fix=True)), ("octave_write(lenient)", lambda: WriteTool().execute(target_path=os.path.join(d, "t.oct.md"), content=t, lenient=True)), ("octave_write(strict, dry)", lambda: WriteTool().execute(target_path=os.path.join(d, "t.oct.md"), content=t, corrections_only=True))):
+                try:
+                    r = asyncio.run(mk())
+                    json.dumps(r)
+                except Exception as e:  # noqa: BLE001
+                    bad.append(f"{label} on {t[:40]!r}: {type(e).__name__}: {str(e)[:80]}")
+    finally:
+        shutil.rmtree(d, ignore_errors=True)
+    return bool(bad), "; ".join(bad[:2]) or "probe: envelopes of receipt-bearing documents serialise"
+
+
+def ob_receipt_values(ctx: Ctx) -> Outcome:
+    """every `self.warnings.append({...})` in the parser stores only JSON-safe values: constants, text built by
+    str()/f-strings/join, token positions, names whose every assignment is such an expression, or names under an
+    enclosing `isinstance(name, str)` guard (the tools copy these records into their envelopes verbatim)"""
+    try:
+        tree = extract.module_ast(PARSER)
+    except ExtractionError as e:
+        return Outcome.undecided("ast-shape", str(e))
+    wits, n = [], 0
+    _load_str_funcs(tree)
+    funcs = [f for f in ast.walk(tree) if isinstance(f, ast.FunctionDef)]
+    for fn in funcs:
+        inner = {id(x) for g in funcs if g is not fn and any(g is y for y in ast.walk(fn)) for x in ast.walk(g)}
+        for c in ast.walk(fn):
+            if id(c) in inner:
+                continue
+            if isinstance(c, ast.Call) and ast.unparse(c.func) == "self.warnings.append" and c.args and isinstance(c.args[0], ast.Dict):
+                guards = _isinstance_str_guards(fn, c)
+                # a list that is `" ".join(...)`-ed on the same path just before / inside the record is a list of str (join would raise otherwise)
+                joined = {j.args[0].id for j in ast.walk(fn) if isinstance(j, ast.Call) and isinstance(j.func, ast.Attribute) and j.func.attr == "join" and j.args and isinstance(j.args[0], ast.Name) and c.lineno - 14 <= j.lineno <= getattr(c, "end_lineno", c.lineno)}
+                guards = guards | joined
+                for k, v in zip(c.args[0].keys, c.args[0].values):
+                    n += 1
+                    if k is None or not _safe_expr(v, fn, guards, set()):
+                        wits.append(Witness(what=f"{fn.name} L{c.lineno}: receipt field {ast.unparse(k) if k else '**'} = `{ast.unparse(v)[:50]}` is not JSON-safe by construction (no str()/text construction, no isinstance(..., str) guard)", key=f"{fn.name}:{ast.unparse(k) if k else '**'}:{ast.unparse(v)[:30]}", input=ast.unparse(v)[:80]))
+    if n == 0:
+        return Outcome.undecided("ast-shape", "no receipt record found in the parser")
+    if wits:
+        failed, text = replay_receipt_values()
+        if not failed:
+            return Outcome.undecided("ast-shape", f"{len(wits)} receipt fields are not JSON-safe by construction (e.g. {wits[0].what[:140]}); probe: {text}")
+        for w in wits:
+            w.confirmed, w.what = True, w.what + f" — {text}"
+            w.replay = {"runner": "props.C20:replay_receipt_values", "args": {}}
+        return Outcome.refuted("ast-dataflow", wits, count=n)
+    return Outcome.ok("ast-dataflow", count=n)
